@@ -19,7 +19,8 @@ META = {
     "Concurrent: 2 threads (thorough also 3) each rendering a pool template on one shared environment with shared data; "
     "every schedule with <= 1 preemption at any line boundary of jinja2 or generated code on a warm environment, <= 2 "
     "preemptions restricted to the functions that touch shared objects, and a cold environment (template load, lexer "
-    "cache, module cache) with points at the shared-state functions; every output must equal the isolated render, no call "
+    "cache, module cache) with points at the shared-state functions, and the synchronous render API of an enable_async "
+    "environment called from both threads (points at every line of generated code); every output must equal the isolated render, no call "
     "may raise, no deadlock, inputs unchanged.",
     "note": "GIL sequential consistency, line granularity; jinja2.utils.Lock and the module-level lexer cache's lock are replaced "
     "by cooperative locks.  Bounded pool (9 templates), threads <= 3, preemption bounds as stated; a schedule cap per "
@@ -285,6 +286,15 @@ def want_shared():
     return want
 
 
+def want_templates():
+    """scheduling points at every line of generated template code and of the shared-state functions"""
+    shared = want_shared()
+
+    def want(frame):
+        return "__jinja_template__" in frame.f_globals or shared(frame)
+    return want
+
+
 def conc_shard(arg):
     import time as _t
     _t0 = _t.time()
@@ -294,15 +304,17 @@ def conc_shard(arg):
     import jinja2
 
     p = core.Part()
-    iso = {n: render(make_env(), n, make_data(), False) for n in set(names)}
-    want = want_all() if mode == "warm-all" else want_shared()
+    # "warm-asyncenv": the synchronous API (render) of an enable_async environment called from several threads
+    aenv = mode == "warm-asyncenv"
+    iso = {n: render(make_env(aenv), n, make_data(), False) for n in set(names)}
+    want = want_all() if mode == "warm-all" else want_templates() if aenv else want_shared()
     sched = e3.Scheduler(want, record_trace=True)
     outcomes = set()
     shared = {}
 
     def make_run(prefix):
         jinja2.clear_caches()
-        env = make_env(memo=mode.startswith("warm"))
+        env = make_env(aenv, memo=mode.startswith("warm"))
         data = make_data()
         if mode.startswith("warm"):
             # warm = the harness templates (and what they import/extend) are loaded and were rendered once
@@ -359,12 +371,12 @@ def replay_conc(names, mode, choices):
     import jinja2
 
     jinja2.clear_caches()
-    env = make_env()
+    env = make_env(mode == "warm-asyncenv")
     data = make_data()
     if mode.startswith("warm"):
         for n in POOL:
             render(env, n, data, False)
-    sched = e3.Scheduler(want_all() if mode == "warm-all" else want_shared())
+    sched = e3.Scheduler(want_all() if mode == "warm-all" else want_templates() if mode == "warm-asyncenv" else want_shared())
     x = sched.run([[(lambda n=n: render(env, n, data, False))] for n in names], tuple(choices))
     last = None
     for tid, where in x.trace:
@@ -399,7 +411,9 @@ def run(ctx: core.Ctx):
                   ("ae_block", "ae_block"), ("ae_block", "ae_block@raise")]
         plan += [(pr, "warm-all", 1, None) for pr in qpairs]
         plan += [(pr, "cold-shared", 1, None) for pr in [("imp", "imp"), ("imp", "fromctx"), ("child", "child"), ("imp", "child"), ("impg1", "impg2")]]
+        plan += [(pr, "warm-asyncenv", 1, 20000) for pr in [("imp", "child"), ("ns", "filters"), ("macro", "macro")]]
     else:
+        plan += [(pr, "warm-asyncenv", 1, 20000) for pr in pairs]
         plan += [(pr, "warm-all", 1, None) for pr in pairs]
         plan += [(pr, "warm-shared", 2, 20000) for pr in pairs]
         plan += [(pr, "cold-shared", 1, None) for pr in pairs]
